@@ -117,6 +117,14 @@ func H_C20_missing_collection() {
 	buildState(e, stateCfg{nDocs: 1, idxField: []string{"x"}, fields: func(i int) map[string]interface{} { return map[string]interface{}{"x": 1.0} }})
 	pre := snapshot(e.ms)
 	q := query.NewQuery("nope").Where(query.Field("x").Gt(0.0))
+	switch nd.Choice("query.shape", 4) {
+	case 1:
+		q = q.Limit(0)
+	case 2:
+		q = query.NewQuery("nope").Skip(1).Limit(0)
+	case 3:
+		q = q.Sort(query.SortOption{Field: "x", Direction: -1}).Skip(2)
+	}
 	var err error
 	switch nd.Choice("op", 18) {
 	case 0:
@@ -148,7 +156,7 @@ func H_C20_missing_collection() {
 	case 13:
 		_, err = e.db.FindAll(q)
 	case 14:
-		_, err = e.db.Count(query.NewQuery("nope"))
+		_, err = e.db.Count(query.NewQuery("nope").Limit(q.GetLimit()))
 	case 15:
 		_, err = e.db.FindFirst(q.Sort())
 	case 16:
